@@ -672,14 +672,15 @@ where
     // indefinite(): which antiderivative the first piece is (its additive constant) is form-specific
     // (the quartic log form and t*q(ln t) differ by a constant), so the chain is anchored black-box at
     // the library's own value of the first piece at its end.
-    let d_anchor = match guard(|| d.segments[0].evaluate(scn.ends[0])) {
+    let d_anchor_x = if scn.ends[0].is_finite() { scn.ends[0] } else { scn.knot.0 };
+    let d_anchor = match guard(|| d.segments[0].evaluate(d_anchor_x)) {
         Ok(v) => v,
         Err(p) => return IRes::Violation("panic".into(), format!("evaluating the first piece of indefinite() panicked: {p}")),
     };
     if !d_anchor.is_finite() {
         return IRes::Discard;
     }
-    let chain_d = Chain::build(kind, &scn.ends, &scn.coefs, (scn.ends[0], d_anchor));
+    let chain_d = Chain::build(kind, &scn.ends, &scn.coefs, (d_anchor_x, d_anchor));
     // The iterators and the batch results describe the same function: compared BY VALUE (each is within
     // its tolerance of the exact integral, so they are within twice that of each other). Bit-identity of
     // `Piecewise::integral` with the iterators is not demanded: the property does not state it.
@@ -690,6 +691,9 @@ where
     ] {
         for i in 0..n {
             for t in [if i == 0 { anchor } else { scn.ends[i - 1] }, scn.ends[i]] {
+                if !t.is_finite() {
+                    continue;
+                }
                 let (e, tol) = chain.expected(kind, &scn.coefs, i, t);
                 if !e.is_finite() || !tol.is_finite() {
                     return IRes::Discard;
@@ -740,6 +744,9 @@ where
             if which == "indefinite()" && what == "first piece at the knot" {
                 continue;
             }
+            if !t.is_finite() {
+                continue; // an infinite last breakpoint: nothing to evaluate there
+            }
             prog.tick();
             if scn.decoy && t > 0.0 {
                 let _ = guard(|| {
@@ -770,7 +777,7 @@ where
                     "tolerance".into(),
                     format!(
                         "{which}: piece {i} at t={t:e} ({what}) evaluates to {v:e}; the integral threaded from {} is {:e}; error {err:e} exceeds the tolerance {tol:e}",
-                        if which == "integral(k0)" { format!("the knot ({:e},{:e})", scn.knot.0, scn.knot.1) } else { format!("the first piece's own value at its end ({:e},{:e})", scn.ends[0], d_anchor) },
+                        if which == "integral(k0)" { format!("the knot ({:e},{:e})", scn.knot.0, scn.knot.1) } else { format!("the first piece's own value at ({:e},{:e})", d_anchor_x, d_anchor) },
                         e.hi
                     ),
                 );
@@ -816,7 +823,9 @@ fn valid(scn: &IntegScn) -> bool {
     if scn.coefs.iter().any(|c| c.len() != scn.kind.nc() || c.iter().any(|x| !x.is_finite())) {
         return false;
     }
-    if scn.ends.iter().any(|e| !e.is_finite()) || scn.ends.windows(2).any(|w| w[1] < w[0]) {
+    // the last breakpoint may be +inf (the last piece extends to infinity anyway); all others finite
+    let nn = scn.ends.len();
+    if scn.ends[..nn - 1].iter().any(|e| !e.is_finite()) || scn.ends[nn - 1].is_nan() || scn.ends[nn - 1] == f64::NEG_INFINITY || scn.ends.windows(2).any(|w| w[1] < w[0]) {
         return false;
     }
     if !scn.knot.0.is_finite() || !scn.knot.1.is_finite() || !scn.knot2.0.is_finite() || !scn.knot2.1.is_finite() {
@@ -863,9 +872,19 @@ fn gen_scn(rng: &mut Rng, _tier: Tier) -> IntegScn {
         _ => match rng.below(10) {
             0..=5 => rng.usize_in(5, 10),
             6..=8 => rng.usize_in(11, 40),
-            _ => rng.usize_in(100, 300),
+            _ => {
+                if rng.chance(1, 12) {
+                    rng.usize_in(1025, 2100)
+                } else {
+                    rng.usize_in(100, 300)
+                }
+            }
         },
     };
+    // narrow pieces at a large offset (timestamps): only for constant and linear pieces, where the
+    // contribution of a narrow piece is still far above the rounding of the evaluated form
+    let offset_narrow = !is_log && rng.chance(1, 25);
+    let kind = if offset_narrow { *rng.pick(&[Kind::P(0), Kind::P(1)]) } else { kind };
     // breakpoints
     let mut ends = Vec::with_capacity(n);
     let pat = rng.below(5);
@@ -902,6 +921,16 @@ fn gen_scn(rng: &mut Rng, _tier: Tier) -> IntegScn {
                 2 => rng.range(0, 6) as f64 * 0.25,
                 _ => rng.uniform(0.01, 3.0),
             };
+        }
+    }
+    if offset_narrow {
+        let base = *rng.pick(&[1e6, 1e9, 1.7e12]);
+        let w = base * *rng.pick(&[1e-13, 1e-12, 3e-12, 1e-10]);
+        ends.clear();
+        let mut x = base;
+        for _ in 0..n {
+            ends.push(x);
+            x += w * rng.usize_in(0, 3) as f64;
         }
     }
     // coefficients: exact (small integers) or general
@@ -1021,13 +1050,28 @@ fn gen_scn(rng: &mut Rng, _tier: Tier) -> IntegScn {
     let knot2 = (if is_log { kx * *rng.pick(&[0.5, 2.0, 1.25]) } else { kx + *rng.pick(&[-1.0, 0.5, 2.0]) }, ky + *rng.pick(&[1.0, -2.5, 0.0]));
     let decoy = rng.chance(1, 2);
     let mut scn = IntegScn { kind, ends, coefs, knot: (kx, ky), schedule, samples, batches, knot2, decoy };
+    // magnitude classes of the ordinates: all coefficients scaled together
+    let cscale = *rng.pick(&[1.0, 1.0, 1.0, 1.0, 1.0, 1.0, 1.0, 1e-18, 1e-6, 1e6, 1e12]);
+    if cscale != 1.0 {
+        for c in scn.coefs.iter_mut() {
+            for x in c.iter_mut() {
+                *x *= cscale;
+            }
+        }
+        scn.knot.1 *= cscale;
+        scn.knot2.1 *= cscale;
+    }
+    // large knot ordinates (absolute-vs-relative slips)
+    if rng.chance(1, 20) {
+        scn.knot.1 = *rng.pick(&[1e9, -1e9, 1e15]);
+    }
     // magnitude classes of the abscissae: everything on the x axis is scaled together
     let scale = if is_log {
         *rng.pick(&[1.0, 1.0, 1.0, 1.0, 1.0, 1.0, 1e6, 1e-6, 1e100, 1e-100])
     } else {
         *rng.pick(&[1.0, 1.0, 1.0, 1.0, 1.0, 1.0, 1e3, 1e6, 1e-3, 1e-6, 1e-17, 1e-30])
     };
-    if scale != 1.0 {
+    if scale != 1.0 && !offset_narrow {
         for e in scn.ends.iter_mut() {
             *e *= scale;
         }
@@ -1037,6 +1081,12 @@ fn gen_scn(rng: &mut Rng, _tier: Tier) -> IntegScn {
             s.1 *= scale;
         }
     }
+    // the last breakpoint may be infinite
+    if rng.chance(1, 20) {
+        let last = scn.ends.len() - 1;
+        scn.ends[last] = f64::INFINITY;
+    }
+    scn.samples.retain(|s| s.1.is_finite() && (!is_log || s.1 > 0.0));
     scn
 }
 
